@@ -22,6 +22,7 @@ EXPLANATION = (
     "itself found it absent -- not through cache_exists(), which pretends absence under recompute); without recompute, cache_exists "
     "answers by tests for the file P itself only (a zero-length file is the complete store of an empty flow).  Trusts pickle round-trip equality and atomicity of rename within a directory.")
 RULES = {
+    "C18-f": "CURRENT NAME: every file Cache opens, renames, removes or tests is named from self._filename in the same function",
     "C18-a": "PUBLISH: the final cache name appears only after the flow loop terminated normally",
     "C18-b": "order: each value is dumped before it is yielded",
     "C18-c": "reload isolation: the cached path ignores the incoming flow; the loader reads P in order until EOFError",
@@ -520,7 +521,56 @@ def check_exists_drop(ctx):
                 ctx.check("C18-e", name == "__init__", x, "Cache.%s rewrites _recompute" % name, detail="_recompute set in __init__ only")
 
 
+def check_file_names_current(ctx):
+    """Cache._set_context renames the cache (`self._filename` is re-formatted from the static context): every file that a
+    method of Cache opens, renames, removes or tests is named by `self._filename` as it is *now* -- the attribute itself or a
+    local computed from it in the same function.  A path kept in another attribute (a temporary name computed in __init__ from
+    the unformatted template) is stale after _set_context: Caches made from one template then share one file."""
+    res = ctx.res
+    cls = ctx.tree.cls(MOD, "Cache")
+    FS = {"builtins.open": [0], "os.rename": [0, 1], "os.replace": [0, 1], "os.remove": [0], "os.unlink": [0], "os.path.exists": [0],
+          "os.path.isfile": [0], "os.path.getsize": [0], "os.stat": [0], "os.path.getmtime": [0]}
+    n = 0
+    for name, fn in methods(cls).items():
+        if name == "__init__":
+            continue
+        for c in A.walk_local(fn):
+            if not isinstance(c, ast.Call):
+                continue
+            canon = res.call_canon(c)
+            if canon not in FS:
+                continue
+            for i in FS[canon]:
+                if i >= len(c.args):
+                    continue
+                a = c.args[i]
+                n += 1
+                roots = set()
+                todo, seen = [a], set()
+                ok = True
+                while todo:
+                    e = todo.pop()
+                    for x in ast.walk(e):
+                        if isinstance(x, ast.Attribute) and A.is_self_attr(x):
+                            roots.add(x.attr)
+                        elif isinstance(x, ast.Name) and isinstance(x.ctx, ast.Load) and x.id not in seen and x.id != "self":
+                            seen.add(x.id)
+                            ds = [d.value for d in A.walk_local(fn) if isinstance(d, ast.Assign) and any(x.id in A.target_names(t) for t in d.targets)]
+                            if x.id in A.func_params(fn):
+                                ok = False
+                            todo.extend(ds)
+                bad = sorted(r for r in roots if r not in ("_filename",))
+                ctx.check("C18-f", ok and not bad and "_filename" in roots, c, "Cache.%s: `%s` is handed the path `%s`, which is not "
+                          "computed from the current self._filename%s: after _set_context has formatted the file name, another file "
+                          "is written, tested or removed than the one the cache is read from"
+                          % (name, A.short(c.func, 30), A.short(a, 40), " (it reads self.%s)" % ", self.".join(bad) if bad else ""),
+                          detail="Cache.%s: %s on a path derived from self._filename" % (name, A.short(c.func, 30)),
+                          construct="stale-path:%s:%s" % (name, A.short(a, 40)))
+    ctx.instances_floor("C18-f", n, 5, "file-system calls in the methods of Cache")
+
+
 def check(ctx):
+    check_file_names_current(ctx)
     loop = check_publish(ctx)
     if loop is not None:
         check_order(ctx, loop)
@@ -537,6 +587,7 @@ _OLD_WRITER = '''        with open(self._filename, "wb") as f:
 '''
 
 VARIANTS = [
+    M("tmp-name-from-template", "lena/flow/cache.py", "        tmp_filename = self._filename + \".tmp\"", "        tmp_filename = self._orig_filename + \".tmp\"", ["C18-f"]),
     M("exists-needs-nonempty-file", "lena/flow/cache.py", "        return os.access(self._filename, os.R_OK)", "        if not os.access(self._filename, os.R_OK):\n            return False\n        return os.path.getsize(self._filename) > 0", ["C18-e"]),
     TW("exists-two-steps", "lena/flow/cache.py", "        return os.access(self._filename, os.R_OK)", "        if not os.access(self._filename, os.R_OK):\n            return False\n        return True"),
     M("drop-guarded-by-cache-exists", "lena/flow/cache.py", "        try:\n            os.remove(self._filename)\n        except OSError as err:", "        if not self.cache_exists():\n            return\n        try:\n            os.remove(self._filename)\n        except OSError as err:", ["C18-e"]),
